@@ -201,6 +201,13 @@ func (o *oracles) SMRecovered(i *SMInst, how string, applied uint64) {
 		return
 	}
 	o.s.ctx.Count("probe.sm_"+how, 1)
+	if e := o.s.expected; e != nil && how == "recover" && !i.importChecked {
+		i.importChecked = true
+		o.s.ctx.Count("probe.import_state_checked", 1)
+		if i.st.hash() != e.state.hash() {
+			o.s.ctx.Violate("C20", "state-differs", "replica %d recovered from the imported snapshot (index %d) into a state that is not the exported one: got %v want %v", i.ReplicaID, e.index, i.st.kv, e.state.kv)
+		}
+	}
 	// after a recover the stream restarts above the image
 	i.LastIndex = applied
 	if how == "recover" {
@@ -678,7 +685,9 @@ func (o *oracles) converged() bool {
 	return !first
 }
 
-func (o *oracles) livenessFailed(what string) {
+func (o *oracles) livenessFailed(what string) { o.livenessFailedFor("C17", what) }
+
+func (o *oracles) livenessFailedFor(prop string, what string) {
 	s := o.s
 	desc := what + ": "
 	for _, h := range s.hosts {
@@ -706,7 +715,7 @@ func (o *oracles) livenessFailed(what string) {
 			}
 		}
 	}
-	s.ctx.Violate("C17", "no-progress", "fair fault-free phase of %d ticks per host did not finish: %s tasks=%s", int(s.cfg.ElectionRTT)*60, desc, s.ex.Describe())
+	s.ctx.Violate(prop, "no-progress", "fair fault-free phase of %d ticks per host did not finish: %s tasks=%s", int(s.cfg.ElectionRTT)*60, desc, s.ex.Describe())
 }
 
 // stableLeader: every running member knows the same leader, which is itself
